@@ -61,6 +61,7 @@ def scenarios(ctx):
         out.append({"id": "rnd-%d" % i, "cfg": {"tick_ms": tick, "rates": rates, "cap": 65536, "level": level,
                                                 "extract": "custom", "qualified": True, "nofl": True}, "steps": steps})
     out += RC.byte_quota_scenarios("c13", {"nofl": True})
+    out += RC.fast_rate_scenarios("c13", rng, {"nofl": True})
     return out
 
 
